@@ -26,7 +26,7 @@ def digests(props, n, seed):
         for b in chk.batches('quick'):
             for i in range(min(n, b['n'])):
                 s = runner.derive_seed(seed, p, b['name'], i)
-                case = chk.make_case(b, s)
+                case = chk.make_case(dict(b, index=i), s)
                 r = chk.run_case(case)
                 out[f'{p}/{b["name"]}/{i}'] = r['digest']
                 env.between_runs()
